@@ -125,6 +125,12 @@ def replay(pl):
         ok = sorted(ord(c) for c in cs) == list(range(K.FIRST, K.LAST + 1))
         return {'confirmed': not ok, 'detail': f'charset default {cs!r}'}
     if ob.startswith('precedence'):
+        # defaults at the ends of the range and equal to zero are legal declarations
+        for decl0 in ([{'name': 'a', 'type': float, 'min': -1.0, 'max': 1.0, 'default': 0.0}, {'name': 'b', 'type': int, 'min': -10, 'max': 10, 'default': 0}],
+                      [{'name': 'a', 'type': float, 'min': 0.5, 'max': 4.0, 'default': 0.5}, {'name': 'b', 'type': int, 'min': 2, 'max': 60, 'default': 60}]):
+            d = _precedence_check(None, '', decl0)
+            if d:
+                return {'confirmed': True, 'detail': d}
         decl2 = [{'name': 'a', 'type': float, 'min': 0.5, 'max': 4.0, 'default': 1.25},
                  {'name': 'b', 'type': int, 'min': 2, 'max': 60, 'default': 14}]
         for explicit in (None, {'a': 3.5, 'b': 7}):
